@@ -29,6 +29,7 @@ type File struct {
 	Imports []*Imp
 	Content string
 	ModRoot string // nearest directory at or above holding go.mod ("" if none)
+	Empty   bool   // txt only: zero bytes
 }
 
 // Layout is one generated tree.
@@ -98,6 +99,9 @@ func Gen(t *tape.Tape, base string, o Opts) *Layout {
 		used[p] = true
 		f := &File{Path: p, Kind: kind, Tag: fmt.Sprintf("%s#%d", strings.TrimPrefix(p, l.Top+"/"), i)}
 		f.ModRoot = l.modRootOf(f.Dir())
+		if kind == "txt" && t.Bool(1, 3) {
+			f.Empty = true // a zero-byte data file is a file like any other
+		}
 		if kind == "arrai" {
 			k := t.Range(0, 3)
 			for j := 0; j < k && len(l.Files) > 0; j++ {
@@ -257,6 +261,9 @@ func (f *File) render() string {
 	case "csv":
 		return fmt.Sprintf("tag,n\n%s,1\n", strings.ReplaceAll(f.Tag, ",", ";"))
 	case "txt":
+		if f.Empty {
+			return ""
+		}
 		return "text " + f.Tag + "\n"
 	}
 	var deps []string
